@@ -512,13 +512,13 @@ Qed.
 (* non-vacuity: trace_off / trace_on switches, a notrace function with a time= trigger and a filter function *)
 Definition mi_cfg : cfg :=
   mkcfg [(1, {| t_filter := None; t_depth := None; t_time := None; t_size := None;
-                t_trace_on := false; t_trace_off := true; t_trace := false; t_caller := false; t_loc := None |});
+                t_trace_on := false; t_trace_off := true; t_trace := false; t_caller := false; t_loc := None; t_finish := false |});
          (2, {| t_filter := None; t_depth := None; t_time := None; t_size := None;
-                t_trace_on := true; t_trace_off := false; t_trace := false; t_caller := false; t_loc := None |});
+                t_trace_on := true; t_trace_off := false; t_trace := false; t_caller := false; t_loc := None; t_finish := false |});
          (3, {| t_filter := Some false; t_depth := None; t_time := Some 5; t_size := None;
-                t_trace_on := false; t_trace_off := false; t_trace := false; t_caller := false; t_loc := None |});
+                t_trace_on := false; t_trace_off := false; t_trace := false; t_caller := false; t_loc := None; t_finish := false |});
          (4, {| t_filter := Some true; t_depth := Some 2; t_time := None; t_size := None;
-                t_trace_on := false; t_trace_off := false; t_trace := true; t_caller := false; t_loc := None |})]
+                t_trace_on := false; t_trace_off := false; t_trace := true; t_caller := false; t_loc := None; t_finish := false |})]
         true false 3 0 16 [] PG.
 Definition mi_forest : list call :=
   [Call 0 10 100 [Call 4 12 60 [Call 1 14 20 [Call 5 15 16 []]; Call 5 22 24 []; Call 2 26 30 []; Call 3 32 40 [Call 5 33 34 []];
